@@ -116,6 +116,13 @@ CLAIMED.update({
             "7 C20"),
 })
 
+CLAIMED.update({
+    "C17": ("Coq proof (the species order is invariant under permutation of the underlying set - any hash seed; frame theorem for descriptions that carry their own element lists over a model of the process-global tables) + extracted-model correspondence of the global tables after construction histories + exploration of rendered-tree hashes across hash seeds, repetitions and interleavings",
+            "Theorems in Props/C17.v: the species order (hence every slot, equation and Jacobian entry position) does not depend on the iteration order of the hash set it is computed from; a description with its own element lists is rendered with exactly those lists whatever was built before; a description relying on the defaults provably inherits the previous network's lists and user binding energies (known finding). The byte-identity of whole rendered trees across interpreters with different PYTHONHASHSEED, repeated rendering and renderings after other networks were built, edited and rendered is explored (sha256, dates masked), not proved.",
+            "Partial: CPython's set/dict behaviour is explored, not modelled; only the species order and the global element/binding tables are inside the model.",
+            "7 C17"),
+})
+
 NOT_YET = {}
 
 
